@@ -16,6 +16,51 @@ ASCII = "".join(chr(i) for i in range(32, 127) if chr(i) != ".")
 U_LIKE = "_︳︴﹍﹎﹏＿"
 
 
+# longer hand-picked names: combining sequences and compatibility characters together with characters that need escaping,
+# look-alikes of the delimiter, names that begin with the letters of the hyx_ prefix, dotted names with underscore-led parts
+CANDS = ["cafe\u0301?", "a\u0301?", "a\u0301\u0323*", "\u1112\u1161\u11ab!", "o\ufb03ce?", "_\ufe4f\u2042\ufe4f", "\u216a!", "_\u2168-\u216a*", "\u216b?", "\u2169!", "\u2168",
+         "has-key?", "x!", "y?", "xs?", "_x?", "__hash!__", "hyx", "hy-x", "x-hyx_", "h?", "hy?", "xyh_!", "-", "--", "-a", "_-a", "a-", "1a", "\u00e9!", "\u00b5?", "\u00aab!", "\ufb01le",
+         "\uff58\uff59-z", "if", "None", "def!", "a-b-c", "a_b-c", "A?B", "+\u0308", "a+\u0301", "x\u0301!", "\U0001f991\u0301"]
+DOTTED_CANDS = ["_1.a", "__2x.real", "_0._0", "_\u00b7.x", "a._b", "_a._b", "a.b-c", "a-b.c!", "_a!.b-c", "a.b.c", "x?.y!", "_.a", "a.__b__", "caf\u00e9.\ufb01", "a.hyx"]
+
+
+def cand_ok(i, which, why=None):
+    """which: 0 = mangle clauses (C32), 1 = unmangle round trip (C33), 2 = dotted names part by part (C32)"""
+    import hy
+    from vf import skel
+
+    if why is None and skel.EXPLAIN[0]:
+        del skel.LAST_WHY[:]
+        why = skel.LAST_WHY
+    if which == 2:
+        s = DOTTED_CANDS[i]
+        want = ".".join(hy.mangle(p) for p in s.split("."))
+        got = hy.mangle(s)
+        if got != want and why is not None:
+            why.append("mangle(%r) = %r, part by part %r" % (s, got, want))
+        return got == want
+    if which == 3:
+        return unmangle_ok(DOTTED_CANDS[i], why)
+    s = CANDS[i]
+    return mangle_ok(s, why) if which == 0 else unmangle_ok(s, why)
+
+
+def cand_obs(which, name, what, alone=()):
+    """One obligation over all candidates; names listed in `alone` (those with a recorded finding) get an obligation each,
+    so that a known finding never hides another candidate."""
+    from vf.xh import Ob
+
+    pool = DOTTED_CANDS if which >= 2 else CANDS
+    idx = [k for k in range(len(pool)) if pool[k] not in alone]
+    L = ["from checks.C32 import cand_ok", "def %s(i: int) -> bool:" % name, '    """', "    pre: 0 <= i < %d" % len(idx), "    post: _", '    """',
+         "    for j, k in enumerate(%r):" % (idx,), "        if i == j:", "            return cand_ok(k, %d)" % which, "    return True"]
+    out = [Ob(name, "\n".join(L), sample="%s for the hand-picked names %r" % (what, [pool[k] for k in idx]), group="candidates")]
+    for n, a in enumerate(alone):
+        L = ["from checks.C32 import cand_ok", "def %s_%d(i: int) -> bool:" % (name, n), '    """', "    post: _", '    """', "    return cand_ok(%d, %d)" % (pool.index(a), which)]
+        out.append(Ob("%s_%d" % (name, n), "\n".join(L), sample="%s for the name %r" % (what, a), group="candidates"))
+    return out
+
+
 def leading_us(s):
     n = 0
     for c in s:
@@ -122,7 +167,9 @@ def spec(tier, seed):
     # dotted names: each part mangled separately
     L = ["from checks.C32 import dotted_ok", "def hdot(a: str, b: str) -> bool:", '    """', "    pre: 1 <= len(a) <= 1 and 1 <= len(b) <= 1 and all(c in ALPH for c in a + b)", "    post: _", '    """',
          "    return dotted_ok(a, b)"]
-    obs.append(Ob("hdot", "\n".join(L), sample="mangle(a + '.' + b) == mangle(a) + '.' + mangle(b), single characters over ALPH", group="dotted"))
+    obs.append(Ob("hdot", "\n".join(L), sample="mangle(a + '.' + b) == mangle(a) + '.' + mangle(b), a of length <= 2, b of length 1 over ALPH", group="dotted"))
+    obs += cand_obs(0, "hcand", "mangle clauses")
+    obs += cand_obs(2, "hdotcand", "dotted names mangled part by part")
     tw = "\n".join(["def twin0(rest: str) -> bool:", '    """', "    pre: len(rest) <= 1 and all(c in ALPH for c in rest)", "    post: _", '    """', "    mangle_ok('a' + rest)", "    return False"])
     obs.append(Ob("twin0", tw, twin=True, group="twin"))
     return {
@@ -134,8 +181,8 @@ def spec(tier, seed):
         "batch": 1,
         "grade": "R (str.isidentifier, unicodedata.* realise every character: each path is one concrete string; the engine certifies the box was exhausted)",
         "functions_encoded": ["hy.reader.mangling.mangle"],
-        "bounds": "names of length 1..%d over the %d-character alphabet %r%s; dotted names with single-character parts" % (
-            maxlen, len(ALPH), ALPH, " plus all printable ASCII except '.' at length <= 2" if tier == "thorough" else ""),
+        "bounds": "names of length 1..%d over the %d-character alphabet %r%s; dotted names a.b with len(a) <= 2, len(b) = 1; %d + %d hand-picked longer names (combining sequences with escapes, delimiter look-alikes, hyx-prefix letters, dotted names with underscore-led parts)" % (
+            maxlen, len(ALPH), ALPH, " plus all printable ASCII except '.' at length <= 2" if tier == "thorough" else "", len(CANDS), len(DOTTED_CANDS)),
         "outside": "every other Unicode code point (the property's 'every code point'): str.isidentifier / unicodedata.name / normalize are C tables that CrossHair realises and that cannot "
                    "be encoded as SMT axioms here; longer names",
         "stubs": [],
